@@ -1,4 +1,5 @@
 import GoSSE.Proofs.MessageBuild
+import GoSSE.Props.C01
 /-!
 # C02 — encoded messages decode to exactly what was appended (no injection)
 
@@ -153,5 +154,20 @@ theorem writeTo_never_panics {σ ε : Type} (w : Writer σ ε) (st : σ) (m : Me
   · split
     · exact hp
     · simpa [WR.write] using hp
+
+/-- **… and by go-sse's own parser, under every segmentation.** However the wire form of any sequence of
+messages is cut into reads, whatever the buffer configuration, `sse.Read` (model `implRun`, tied to the
+specification by `C01.read_conforms_or_toolong`) yields exactly the expected events and no error — unless the
+size limit is hit, in which case it has yielded a prefix of them. -/
+theorem own_parser_decodes_concat (id₀ : Bytes) (scripts : List (List BuildOp))
+    (hv : ∀ ops ∈ scripts, ∀ op ∈ ops, BuildOp.Valid op) (src : Source) (cfg : Option (Nat × Int))
+    (hsrc : src.chunks.flatten = (scripts.map build).flatMap Message.encode) (hend : src.endErr = false) :
+    let r := implRun false id₀ src cfg
+    (r.2.1 = PErr.tooLong ∧ r.1 <+: expected .gosse id₀ (scripts.map describe)) ∨
+    (r.1 = expected .gosse id₀ (scripts.map describe) ∧ r.2.1 = PErr.none) := by
+  have hc := GoSSE.Props.C01.read_conforms_or_toolong false id₀ src cfg
+  have hd := decode_concat_gosse id₀ scripts hv
+  simp only [hsrc, hend, Bool.false_eq_true, if_false, hd] at hc
+  simpa [GoSSE.Proofs.endErr] using hc
 
 end GoSSE.Props.C02
